@@ -66,8 +66,14 @@ def run(ctx):
                 if n.kind in ("join", "guard", "exit", "raise", "dead", "continue", "loopdone"):
                     continue
                 is_yield = n.kind == "stmt" and isinstance(n.ast, ast.Expr) and isinstance(n.ast.value, ast.Yield)
+                is_collect = n.kind == "stmt" and isinstance(n.ast, ast.Expr) and isinstance(n.ast.value, ast.Call) \
+                    and isinstance(n.ast.value.func, ast.Attribute) and n.ast.value.func.attr == "append" and len(n.ast.value.args) == 1 \
+                    and len(g.cond.args) == 1 and norm(n.ast.value.args[0]) == norm(g.cond.args[0]) and isinstance(n.ast.value.func.value, ast.Name)
                 if is_yield and g.outcome is True:
                     ctx.inst("S2", f, n.ast, "only the yield depends on filter_")
+                elif is_collect and g.outcome is True:
+                    # the node is collected into the group that is yielded later (that the group is yielded restricted is the flow rule)
+                    ctx.inst("S2", f, n.ast, "only collecting the node for its level group depends on filter_")
                 else:
                     what = n.ast if n.ast is not None else g.cond
                     ctx.viol("S2", f, what, "`%s` is executed only when filter_(node) is %s: filter_ must hide the node itself only — "
